@@ -100,7 +100,7 @@ fn expected_calls(b: &Built, cmds: &CmdOut, q: &GenQuery) -> Option<(BTreeSet<Ca
                         let calls = interp::word_command_calls(sub, cmds, &q.cur);
                         // the position the typed text leads to (the longest matched part); commands there
                         // at a within-word level up to the winning one must be consulted
-                        let max_matched = calls.iter().map(|(_, _, m, _)| m.len()).max();
+                        let max_matched = Some(interp::max_matched_len(sub, cmds, &q.cur));
                         let conts = interp::word_continuations(sub, cmds, &q.cur);
                         let subwin = conts.iter().map(|(l, _)| *l).min();
                         for (text, rest, matched, l) in calls {
@@ -145,7 +145,7 @@ fn extra_queries(s: &mut Src, b: &Built, cmds: &CmdOut) -> Vec<GenQuery> {
     out
 }
 
-fn judge_grammar(g: &G, v: &Vocab, text: &str, qbytes: &[u8], nq: usize) -> Outcome {
+fn judge_grammar(g: &G, v: &Vocab, text: &str, qbytes: &[u8], nq: usize, extra: Vec<GenQuery>) -> Outcome {
     let Ok(b) = model::denote(g, "bash") else { return Outcome::Skip("model cannot elaborate".into()) };
     if interp::same_literal_two_labels(&b) {
         return Outcome::Skip("outside the stated domain: the same literal is expected at one point with two labels (C09's region)".into());
@@ -164,6 +164,7 @@ fn judge_grammar(g: &G, v: &Vocab, text: &str, qbytes: &[u8], nq: usize) -> Outc
     // truncated words are the region of C01's known finding F-truncated-word-accepted: avoided here by
     // construction (and counted)
     queries.extend(extra_queries(&mut s, &b, &cmds));
+    queries.extend(extra);
     let before = queries.len();
     queries.retain(|q| !interp::truncated_region(&b, &cmds, &q.words));
     let avoided = before - queries.len();
@@ -286,12 +287,52 @@ fn judge_queries(g: &G, text: &str, script: &str, b: &Built, cmds: &CmdOut, quer
     Outcome::Pass(c)
 }
 
+/// an extra call variant that puts commands where they are rarest in random grammars: inside a word on a
+/// later || level of that word, and in several words of one shape that differ only in their command
+fn add_stress(s: &mut Src, g: &mut G, v: &mut Vocab) -> Vec<GenQuery> {
+    let pool = probe_cmd_pool();
+    let i = s.below(pool.len());
+    let j = (i + 1 + s.below(pool.len() - 1)) % pool.len();
+    let k = (0..pool.len()).find(|x| *x != i && *x != j).unwrap();
+    for x in [i, j, k] {
+        if !v.cmds.iter().any(|c| c.text == pool[x].text) {
+            v.cmds.push(pool[x].clone());
+        }
+    }
+    let first = if s.bool() { lit("fast") } else { E::Cmd(pool[k].text.clone()) };
+    let words = E::Alt(vec![
+        E::Word(vec![lit("--m="), E::Fb(vec![first, E::Cmd(pool[i].text.clone())])]),
+        E::Word(vec![lit("--c="), E::Cmd(pool[i].text.clone())]),
+        E::Word(vec![lit("--f="), E::Cmd(pool[j].text.clone())]),
+        E::Word(vec![lit("--t="), E::Cmd(pool[k].text.clone())]),
+    ]);
+    g.stmts.push(Stmt::Call { name: "cmd".into(), e: E::Seq(vec![lit("stress"), words, E::Opt(Box::new(lit("end")))]) });
+    let mut qs = vec![];
+    for (opener, x) in [("--m=", i), ("--c=", i), ("--f=", j), ("--t=", k)] {
+        qs.push(GenQuery { words: vec!["stress".into()], cur: opener.to_string(), kind: "stress" });
+        if let Some((c, _)) = pool[x].lines.first() {
+            qs.push(GenQuery { words: vec!["stress".into()], cur: format!("{opener}{}", &c[..1]), kind: "stress" });
+            qs.push(GenQuery { words: vec!["stress".into(), format!("{opener}{c}")], cur: String::new(), kind: "stress" });
+        }
+    }
+    let pick = s.below(qs.len());
+    let pick2 = s.below(qs.len());
+    vec![qs[pick].clone(), qs[pick2].clone(), qs[1].clone()]
+}
+
 fn case(bytes: &[u8]) -> Outcome {
     let n = bytes.len();
     let (ga, qb) = bytes.split_at(n * 2 / 3);
-    let (g, v) = gen_clean(&mut Src::new(ga), &profile());
+    let (mut g, mut v) = gen_clean(&mut Src::new(ga), &profile());
+    let mut sq = Src::new(qb);
+    let lead: Vec<u8> = (0..8).map(|_| sq.byte()).collect();
+    let mut extra = vec![];
+    let mut ls = Src::new(&lead);
+    if ls.chance(2, 3) && !g.exprs().any(|e| e.has(&|x| matches!(x, E::Lit { text, .. } if text == "stress"))) {
+        extra = add_stress(&mut ls, &mut g, &mut v);
+    }
     let text = print_minimal(&g);
-    judge_grammar(&g, &v, &text, qb, 10)
+    judge_grammar(&g, &v, &text, &qb[8.min(qb.len())..], 8, extra)
 }
 
 fn case_regress(doc: &serde_json::Value) -> Outcome {
